@@ -1,9 +1,13 @@
 //! C10: the real `CacheLayer` / `SharedCacheLayer` over the scripted inner service.
 //!
-//! header: `cache max=<n> policy=lru|lfu|fifo [ttl=<ms>] [shared=0|1|2]`
+//! header: `cache max=<n> policy=lru|lfu|fifo [ttl=<ticks>] [shared=0|1|2] [tick=us]`   (one tick = 1 ms unless `tick=us`)
 //!   shared=0  one service built by `CacheLayer::layer`; every caller uses a clone of it
 //!   shared=1  `SharedCacheLayer::builder()…build()`, two services from two `layer()` calls
 //!   shared=2  `CacheLayer::builder()…build().shared::<Resp>()`, two services likewise
+//!   tick=us   one clock tick is 1 µs: `ttl=<n>` is n ticks (`world::ticks`), so are `adv n` and `t=`. The cache is
+//!             timed by `std::time::Instant` alone, so TTLs that are not whole milliseconds and lookups at ages between
+//!             two millisecond boundaries are exact. The scripted inner service sleeps on a tokio timer (millisecond
+//!             granularity, `lat` in ms): `tick=us` cases use `inner=0:<out>` and time the completion with the `poll`.
 //! arrive: `arrive <c> key=<k> [svc=0|1] inner=<lat>:<out>`; the key extractor is `|r| r.key`.
 //!
 //! The lookup happens inside `call()`, i.e. in the `arrive` operation; the adapter first echoes
@@ -35,7 +39,7 @@ fn policy(kv: &Kv) -> EvictionPolicy {
 impl Adapter {
     pub fn new(kv: &Kv) -> Adapter {
         let max = kv.u64("max", 1) as usize;
-        let ttl = kv.opt_u64("ttl").map(Duration::from_millis);
+        let ttl: Option<Duration> = kv.opt_u64("ttl").map(ticks);
         let svcs = match kv.u64("shared", 0) {
             0 => {
                 let mut b = CacheLayer::<Req, u64>::builder()
